@@ -173,6 +173,15 @@ def make_env():
     return env
 
 
+def pristine(pair):
+    from dissect.cobaltstrike import beacon
+
+    which, u = pair
+    env = _G["env"]
+    env["which"] = which
+    return core.guarded(do_use, u, beacon.BeaconConfig(env["blocks"][which]), env, seconds=60)
+
+
 def one(hist):
     """replay one history twice: (A) snapshot around every use, (B) only a final snapshot (caches evolve as in real use)"""
     from dissect.cobaltstrike import beacon
@@ -193,6 +202,12 @@ def one(hist):
                     break
                 if o[1] != twin[1]:
                     out.append({"kind": "history_dependent_result", "use": u, "step": i, "mode": mode, "cfg": which, "earlier": list(hist[:i])})
+                    break
+                # ... and equal to the result of the same use in a pristine process (state shared through the module, not
+                # through the configuration object, pollutes the twin as well)
+                ref = _G.get("ref", {}).get((which, u))
+                if ref is not None and o[1] != ref:
+                    out.append({"kind": "process_history_dependent_result", "use": u, "step": i, "mode": mode, "cfg": which, "earlier": list(hist[:i])})
                     break
                 if u == "mutate" and any(x[2] == "mutated" for x in o[1]):
                     out.append({"kind": "mapping_mutable", "use": u, "step": i, "mode": mode, "cfg": which, "detail": [x for x in o[1] if x[2] == "mutated"][:4]})
@@ -217,8 +232,9 @@ def run(ctx):
                         "random choices inside client set-up are fixed by seeding"]
     uses = "{" + ", ".join(f'"{u}"' for u in USES) + "}"
 
-    def cfg(maxlen, original):
-        return f"CONSTANTS\n Uses = {uses}\n MaxLen = {maxlen}\n ORIGINAL = {'TRUE' if original else 'FALSE'}\nSPECIFICATION Spec\nPROPERTY Immutable\nINVARIANT HistoryIndependent\nCHECK_DEADLOCK FALSE\n"
+    def cfg(maxlen, original, shared=False):
+        return (f"CONSTANTS\n Uses = {uses}\n MaxLen = {maxlen}\n ORIGINAL = {'TRUE' if original else 'FALSE'}\n SHARED = {'TRUE' if shared else 'FALSE'}\n"
+                "SPECIFICATION Spec\nPROPERTY Immutable\nINVARIANT HistoryIndependent\nCHECK_DEADLOCK FALSE\n")
 
     r = ctx.tlc("ConfigValue", cfg(4 if q else 5, False), name="model", workers=8)
     core.require_clean(r, "ConfigValue")
@@ -226,6 +242,9 @@ def run(ctx):
     r0 = ctx.tlc("ConfigValue", cfg(2, True), name="model-original", workers=2, coverage=False)
     if r0.ok:
         raise core.MachineryError("ConfigValue.tla accepts a use that modifies the configuration (vacuous?)")
+    r1 = ctx.tlc("ConfigValue", cfg(2, False, shared=True), name="model-shared-request", workers=2, coverage=False)
+    if r1.ok:
+        raise core.MachineryError("ConfigValue.tla accepts transforms that start from a shared module-level request (vacuous?)")
     dot = ctx.outdir / "graph.dot"
     rg = ctx.tlc("ConfigValue", cfg(2 if q else 3, False), name="histories", workers=1, coverage=False, extra=["-dump", "dot,actionlabels", str(dot)])
     core.require_clean(rg, "ConfigValue histories")
@@ -255,6 +274,13 @@ def run(ctx):
             _G["env"]["sample_base"] = cfg_s.uris[0].encode()
         except Exception as e:
             ctx.notes["sample_error"] = repr(e)
+    # reference results: every use once, each in a process of its own that has not used the library for anything else
+    pairs = [(which, u) for which in _G["env"]["blocks"] for u in USES]
+    with mp.get_context("fork").Pool(14, maxtasksperchild=1) as pool:
+        refs = pool.map(pristine, pairs, chunksize=1)
+    _G["ref"] = {k: v[1] for k, v in zip(pairs, refs) if v[0] == "ok"}
+    if len(_G["ref"]) < len(pairs) // 2:
+        raise core.MachineryError(f"only {len(_G['ref'])} of {len(pairs)} pristine reference results could be computed: {[v for v in refs if v[0] != 'ok'][:2]}")
     with mp.get_context("fork").Pool(14) as pool:
         results = pool.map(one, hists, chunksize=8)
     for h, res in zip(hists, results):
